@@ -44,7 +44,7 @@ WIDTH_PAIRS = (
 
 
 def budget(tier):
-    return dict(examples=100, seconds=40) if tier == "quick" else dict(examples=800, seconds=300)
+    return dict(examples=40, seconds=40) if tier == "quick" else dict(examples=300, seconds=300)
 
 
 @st.composite
